@@ -71,7 +71,7 @@ PROPS = {
                       (["wait_f", "wait_s"], "panic", 0.2)],
                 assumptions=COMMON_ASSUME + ["child scripts have the kind of their child (Case.kindOk): a future only "
                                              "resolves, a stream only yields/ends - enforced by Rust's types"]),
-    "C08": dict(monitors=["C08", "NP", "LV"], monitor="C08", modules=["C08", "C01"], proj="FUN", cfgs=ALL3, quick=2500, thorough=30000,
+    "C08": dict(ktie=["Idx", "MergeV"], monitors=["C08", "NP", "LV"], monitor="C08", modules=["C08", "C01"], proj="FUN", cfgs=ALL3, quick=2500, thorough=30000,
                 gens=[(["merge"], "mt", 0.3), (["merge"], "drain", 0.5), (["merge"], "exh", 1.0), (["merge"], "random", 1.0), (["merge"], "fair", 0.4), (["merge"], "stuck", 0.2),
                       (["merge"], "panic", 0.2), (["merge"], "big", 0.08), (["merge"], "waves", 0.1)],
                 assumptions=COMMON_ASSUME),
@@ -83,7 +83,7 @@ PROPS = {
                 gens=[(["chain"], "drain", 0.5), (["chain"], "exh", 1.0), (["chain"], "random", 1.0), (["chain"], "fair", 0.4), (["chain"], "stuck", 0.2),
                       (["chain"], "panic", 0.2), (["chain"], "big", 0.08)],
                 assumptions=COMMON_ASSUME),
-    "C17": dict(ktie=["Idx"], monitors=["C17", "NP", "LV"], monitor="C17", modules=["C17", "C01"], proj="FUN", cfgs=ALL3, quick=2500, thorough=30000,
+    "C17": dict(ktie=["Idx", "MergeV"], monitors=["C17", "NP", "LV"], monitor="C17", modules=["C17", "C01"], proj="FUN", cfgs=ALL3, quick=2500, thorough=30000,
                 gens=[(["merge"], "mt-fair", 0.5), (["merge"], "mt", 0.2), (["merge"], "drain", 0.3), (["merge"], "exh", 0.5), (["merge"], "fair", 1.0), (["merge"], "random", 0.5), (["merge"], "stuck", 0.2)],
                 assumptions=COMMON_ASSUME),
     "C11": dict(ktie=["Grp", "GrpPoll"], monitors=["C11", "NP", "LV"], monitor="C11", modules=["C11", "C01g"], proj="GRP", cfgs=["std", "alloc", "stdv"], ks=True, quick=3000, thorough=40000,
